@@ -5,6 +5,7 @@ package main
 
 import (
 	"fmt"
+	"os"
 	"go/ast"
 	"go/constant"
 	"go/token"
@@ -428,6 +429,23 @@ func (vc *VC) loopNames(fr *Frame, li *loopInfo, phiVals map[*ssa.Phi]*Val) map[
 			names[n] = v
 		}
 	}
+	// the hidden indices of the enclosing loops: #i<ordinal>
+	for h, outer := range fr.loops {
+		if h == li.header || !outer.body[li.header] {
+			continue
+		}
+		for _, in := range h.Instrs {
+			phi, ok := in.(*ssa.Phi)
+			if !ok {
+				break
+			}
+			if phi.Comment == "rangeindex" {
+				if v, ok := fr.vals[phi]; ok {
+					names[fmt.Sprintf("#i%d", outer.ordinal)] = v
+				}
+			}
+		}
+	}
 	return names
 }
 
@@ -467,9 +485,6 @@ func (vc *VC) localNames(fr *Frame, b *ssa.BasicBlock, into map[string]*Val) {
 			if !ok {
 				continue
 			}
-			if _, isPhi := v.(*ssa.Phi); isPhi {
-				continue
-			}
 			if in.Block() != nil && in.Block() != b && in.Block().Dominates(b) {
 				if tv, done := fr.vals[v]; done && tv != nil {
 					if best == nil || best.(ssa.Instruction).Block().Dominates(in.Block()) {
@@ -500,9 +515,11 @@ func (vc *VC) enterLoop(fr *Frame, li *loopInfo, phiIn map[*ssa.Phi]*Val) {
 	names := vc.loopNames(fr, li, phiIn)
 	vc.localNames(fr, li.header, names)
 	env := vc.specEnv(fr, names)
-	for i, inv := range ls.Invariants {
-		if t, ok := vc.evalBool(inv, env); ok {
-			vc.oblige("loop-entry", vc.clauseLabel(fmt.Sprintf("loop%d", li.ordinal), inv, i), t, pos, "loop invariant holds on entry: "+inv.Src)
+	for i, inv0 := range ls.Invariants {
+		for _, inv := range conjuncts(inv0) {
+			if t, ok := vc.evalBool(inv, env); ok {
+				vc.oblige("loop-entry", vc.clauseLabel(fmt.Sprintf("loop%d:%d", li.ordinal, i+1), inv, i), t, pos, "loop invariant holds on entry: "+inv.Src)
+			}
 		}
 	}
 	// 2. discovery of the storage modified by the body
@@ -547,10 +564,15 @@ func (vc *VC) enterLoop(fr *Frame, li *loopInfo, phiIn map[*ssa.Phi]*Val) {
 	vc.emit("(assert (=> %s %s))", hreach, reachIn)
 	vc.reach = hreach
 	keys := make([]string, 0, len(modified))
-	for k := range modified {
-		keys = append(keys, k)
+	for k, isMod := range modified {
+		if isMod {
+			keys = append(keys, k)
+		}
 	}
 	sort.Strings(keys)
+	if os.Getenv("GOVC_DEBUG") != "" {
+		fmt.Fprintf(os.Stderr, "loop %d of %s modifies %v\n", li.ordinal, fr.fn.Name(), keys)
+	}
 	for _, k := range keys {
 		srt := vc.p.storageSort[k]
 		if srt == "" {
@@ -678,9 +700,11 @@ func (vc *VC) backEdge(fr *Frame, from, header *ssa.BasicBlock) {
 	if !pos.IsValid() {
 		pos = header.Instrs[0].Pos()
 	}
-	for i, inv := range ls.Invariants {
-		if t, ok := vc.evalBool(inv, env); ok {
-			vc.oblige("loop-preserve", vc.clauseLabel(fmt.Sprintf("loop%d", li.ordinal), inv, i), t, pos, "loop invariant is preserved: "+inv.Src)
+	for i, inv0 := range ls.Invariants {
+		for _, inv := range conjuncts(inv0) {
+			if t, ok := vc.evalBool(inv, env); ok {
+				vc.oblige("loop-preserve", vc.clauseLabel(fmt.Sprintf("loop%d:%d", li.ordinal, i+1), inv, i), t, pos, "loop invariant is preserved: "+inv.Src)
+			}
 		}
 	}
 	vc.st, vc.reach = saveSt, saveReach
@@ -1145,6 +1169,7 @@ func (vc *VC) unop(fr *Frame, in *ssa.UnOp, pos token.Pos) *Val {
 			return &Val{T: vc.fresh("load", vc.sortOf(in.Type())), Ty: in.Type()}
 		}
 		vc.lockReadCheck(l, pos)
+		vc.heapClosureAxiom(l)
 		v := vc.loadVal(l)
 		v.Ty = in.Type()
 		v.PRoot, v.PFields = x.PRoot, x.PFields
@@ -1651,4 +1676,40 @@ func (*bigInt) lsh(n int64) string {
 	}
 	_ = s
 	return "18446744073709551616"
+}
+
+// heapClosureAxiom states once per storage that the ENTRY heap is closed under
+// entry allocation: every reference stored in it was allocated before the
+// function under verification started.
+func (vc *VC) heapClosureAxiom(l *Loc) {
+	if l.Kind != RField && l.Kind != RCell && l.Kind != RElem {
+		return
+	}
+	if len(l.Path) > 0 {
+		return
+	}
+	key := "closure:" + l.Heap
+	if vc.declared[key] {
+		return
+	}
+	srt := vc.rootStorageSort(l)
+	h0 := vc.entryVersion(l.Heap, srt)
+	var body, pat, bind string
+	if l.Kind == RElem {
+		pat = fmt.Sprintf("(select (select %s r) i)", h0)
+		bind = "((r Int) (i Int))"
+	} else {
+		pat = fmt.Sprintf("(select %s r)", h0)
+		bind = "((r Int))"
+	}
+	body = vc.allocFact(pat, l.RootT, "alloc@0")
+	if body == "" {
+		return
+	}
+	vc.declared[key] = true
+	vc.declLog = append(vc.declLog, key)
+	save := vc.globalFact
+	vc.globalFact = true
+	vc.emit("(assert (forall %s (! %s :pattern (%s))))", bind, body, pat)
+	vc.globalFact = save
 }
